@@ -56,6 +56,20 @@ pub enum KOp {
     /// more(), one next(), then a second send on the *same* call object while it is still iterating
     /// (refused), then a new call (busy), then the iteration is continued to its end
     MoreResend { conts: u8, fin: RSpec },
+    /// more(); after the first item a new call object is tried (refused: busy); the iteration is
+    /// continued to its end; then the *refused* call object is issued again, this time with oneway()
+    BusyRetryOneway { conts: u8, fin: RSpec },
+    /// a call whose parameters cannot be serialised (mode 0 call(), 1 more(), 2 oneway()): it fails
+    /// before anything is sent, so no call is outstanding afterwards
+    Unser { mode: u8 },
+}
+
+/// parameters whose Serialize implementation always fails
+pub struct BadSer;
+impl serde::Serialize for BadSer {
+    fn serialize<S: serde::Serializer>(&self, _s: S) -> Result<S::Ok, S::Error> {
+        Err(serde::ser::Error::custom("these parameters cannot be serialised"))
+    }
 }
 
 #[derive(Clone, Debug, Serialize, Deserialize, PartialEq)]
@@ -258,6 +272,21 @@ fn run_task(net: NetRef, conn: Arc<shuttle::sync::RwLock<Connection>>, task: usi
                 };
                 rec(OpRec { task, op: oi, what: "call", item: 0, token: token.clone(), inv, ret, outcome });
             }
+            KOp::Unser { mode } => {
+                let mut mc = MethodCall::<BadSer, Value, varlink::Error>::new(conn.clone(), "org.sim.k.Do", BadSer);
+                let inv = net.stamp(format!("inv {} unser", token));
+                let r = match mode {
+                    0 => mc.call().map(|_| ()),
+                    1 => mc.more().map(|_| ()),
+                    _ => mc.oneway(),
+                };
+                let ret = net.stamp(format!("ret {} unser", token));
+                let outcome = match &r {
+                    Ok(()) => "Ok".to_string(),
+                    Err(e) => err_outcome(e),
+                };
+                rec(OpRec { task, op: oi, what: "unser", item: 0, token: token.clone(), inv, ret, outcome });
+            }
             KOp::Oneway | KOp::OnewayResend => {
                 let mut mc = new_call(&token, json!({"final": spec_json(&RSpec::Ok)}));
                 let inv = net.stamp(format!("inv {} oneway", token));
@@ -279,18 +308,20 @@ fn run_task(net: NetRef, conn: Arc<shuttle::sync::RwLock<Connection>>, task: usi
                     rec(OpRec { task, op: oi, what: "resend", item: 0, token: token.clone(), inv, ret, outcome });
                 }
             }
-            KOp::More { .. } | KOp::MoreErr { .. } | KOp::MoreResend { .. } => {
+            KOp::More { .. } | KOp::MoreErr { .. } | KOp::MoreResend { .. } | KOp::BusyRetryOneway { .. } => {
                 let resend_nexts: u8;
                 let (conts, fin, nexts, nested, err_at) = match op {
                     KOp::More { conts, fin, nexts, nested } => (conts, fin, nexts, nested, None),
                     KOp::MoreErr { conts, err_at, fin, nexts } => (conts, fin, nexts, &false, Some(*err_at)),
-                    KOp::MoreResend { conts, fin } => {
+                    KOp::MoreResend { conts, fin } | KOp::BusyRetryOneway { conts, fin } => {
                         resend_nexts = *conts + 2;
                         (conts, fin, &resend_nexts, &true, None)
                     }
                     _ => unreachable!(),
                 };
                 let resend_mid = matches!(op, KOp::MoreResend { .. });
+                let retry_after = matches!(op, KOp::BusyRetryOneway { .. });
+                let mut kept = None;
                 let mut mc = new_call(&token, json!({"conts": conts, "final": spec_json(fin), "err_at": err_at}));
                 let inv = net.stamp(format!("inv {} more", token));
                 let started = mc.more().map(|_| ());
@@ -325,7 +356,10 @@ fn run_task(net: NetRef, conn: Arc<shuttle::sync::RwLock<Connection>>, task: usi
                         let inv = net.stamp(format!("inv {} nested", ntok));
                         let r = inner.call();
                         let ret = net.stamp(format!("ret {} nested", ntok));
-                        rec(OpRec { task, op: oi, what: "nested", item: j, token: ntok, inv, ret, outcome: outcome_of(&r) });
+                        rec(OpRec { task, op: oi, what: "nested", item: j, token: ntok.clone(), inv, ret, outcome: outcome_of(&r) });
+                        if retry_after {
+                            kept = Some((ntok, inner));
+                        }
                     }
                     let inv = net.stamp(format!("inv {} next{}", token, j));
                     let it = mc.next();
@@ -336,6 +370,16 @@ fn run_task(net: NetRef, conn: Arc<shuttle::sync::RwLock<Connection>>, task: usi
                             rec(OpRec { task, op: oi, what: "end", item: j, token: token.clone(), inv, ret, outcome: "None".into() });
                         }
                     }
+                }
+                if let Some((ntok, mut inner)) = kept {
+                    let inv = net.stamp(format!("inv {} retry", ntok));
+                    let r = inner.oneway();
+                    let ret = net.stamp(format!("ret {} retry", ntok));
+                    let outcome = match &r {
+                        Ok(()) => "Ok".to_string(),
+                        Err(e) => err_outcome(e),
+                    };
+                    rec(OpRec { task, op: oi, what: "retry", item: 0, token: ntok, inv, ret, outcome });
                 }
             }
         }
@@ -558,14 +602,26 @@ fn conn_level(outcome: &str) -> bool {
 
 pub fn judge_k(case: &KCase, end: &SimEnd, o: &KObs) -> (Vec<Violation>, bool) {
     let mut v: Vec<Violation> = Vec::new();
+    let has_more = case
+        .tasks
+        .iter()
+        .flatten()
+        .any(|op| matches!(op, KOp::More { .. } | KOp::MoreErr { .. } | KOp::MoreResend { .. }));
     match end {
         SimEnd::Completed => {}
         SimEnd::Panic(t) => {
             v.push(viol("C07", "panic", format!("client code panicked: {}", t.chars().take(300).collect::<String>())));
+            if has_more {
+                // a more-iteration that dies in a panic neither yields its final reply nor ends
+                v.push(viol("C05", "panic", format!("client code panicked while more-iterations were under way: {}", t.chars().take(300).collect::<String>())));
+            }
             return (v, false);
         }
         SimEnd::Deadlock(t) => {
             v.push(viol("C07", "deadlock", format!("client threads deadlocked: {}", t.chars().take(300).collect::<String>())));
+            if has_more {
+                v.push(viol("C05", "deadlock", format!("client threads deadlocked while more-iterations were under way: {}", t.chars().take(300).collect::<String>())));
+            }
             return (v, false);
         }
         SimEnd::StepBound => {
@@ -589,7 +645,7 @@ pub fn judge_k(case: &KCase, end: &SimEnd, o: &KObs) -> (Vec<Violation>, bool) {
         for (oi, op) in ops.iter().enumerate() {
             let token = format!("t{}-{}", t, oi);
             let mine: Vec<&&OpRec> = recs.iter().filter(|r| r.op == oi).collect();
-            let main = mine.iter().find(|r| matches!(r.what, "call" | "oneway" | "more"));
+            let main = mine.iter().find(|r| matches!(r.what, "call" | "oneway" | "more" | "unser"));
             let main = match main {
                 Some(m) => m,
                 None => {
@@ -670,6 +726,18 @@ pub fn judge_k(case: &KCase, end: &SimEnd, o: &KObs) -> (Vec<Violation>, bool) {
                         ));
                     }
                 }
+                KOp::Unser { .. } => {
+                    if !main.outcome.starts_with("E:SerdeSer") {
+                        v.push(viol(
+                            "C07",
+                            "outcome",
+                            format!("{}: a call whose parameters cannot be serialised returned {}", token, main.outcome),
+                        ));
+                    }
+                    if sent {
+                        v.push(viol("C07", "refused-call-left-bytes", format!("{} failed before sending, but a request reached the server", token)));
+                    }
+                }
                 KOp::Oneway | KOp::OnewayResend => {
                     if let KOp::OnewayResend = op {
                         if let Some(r2) = mine.iter().find(|r| r.what == "resend") {
@@ -692,12 +760,12 @@ pub fn judge_k(case: &KCase, end: &SimEnd, o: &KObs) -> (Vec<Violation>, bool) {
                         v.push(viol("C04", "client-oneway", format!("{} oneway() returned Ok but nothing reached the server", token)));
                     }
                 }
-                KOp::More { .. } | KOp::MoreErr { .. } | KOp::MoreResend { .. } => {
+                KOp::More { .. } | KOp::MoreErr { .. } | KOp::MoreResend { .. } | KOp::BusyRetryOneway { .. } => {
                     let resend_nexts: u8;
                     let (conts, fin, nexts, nested, err_at) = match op {
                         KOp::More { conts, fin, nexts, nested } => (conts, fin, nexts, nested, None),
                         KOp::MoreErr { conts, err_at, fin, nexts } => (conts, fin, nexts, &false, Some(*err_at as usize)),
-                        KOp::MoreResend { conts, fin } => {
+                        KOp::MoreResend { conts, fin } | KOp::BusyRetryOneway { conts, fin } => {
                             resend_nexts = *conts + 2;
                             (conts, fin, &resend_nexts, &true, None)
                         }
@@ -768,8 +836,27 @@ pub fn judge_k(case: &KCase, end: &SimEnd, o: &KObs) -> (Vec<Violation>, bool) {
                                     format!("{}: a new call while the more-iteration was outstanding returned {} instead of ConnectionBusy", token, nr.outcome),
                                 ));
                             }
-                            if nr.outcome == "E:Busy" && o.arrivals.iter().any(|a| a.token == nr.token) {
+                            let retry = mine.iter().find(|r| r.what == "retry");
+                            if nr.outcome == "E:Busy" && retry.is_none() && o.arrivals.iter().any(|a| a.token == nr.token) {
                                 v.push(viol("C07", "refused-call-left-bytes", format!("{} returned Busy but its request reached the server", nr.token)));
+                            }
+                            if let Some(rt) = retry {
+                                // the refused object issued again with oneway(): either it counts as
+                                // used up (nothing is sent), or it goes out as what oneway() promises
+                                let arr: Vec<&Arrival> = o.arrivals.iter().filter(|a| a.token == rt.token).collect();
+                                if rt.outcome == "Ok" && !faulty {
+                                    if arr.is_empty() {
+                                        v.push(viol("C04", "client-oneway", format!("{}: oneway() on a call object that had been refused as busy returned Ok but nothing reached the server", rt.token)));
+                                    } else if arr.iter().any(|a| !a.oneway) {
+                                        v.push(viol(
+                                            "C04",
+                                            "client-oneway",
+                                            format!("{}: oneway() on a call object that had been refused as busy returned Ok, but the request went out without oneway:true (the service answers it, the client never reads that answer)", rt.token),
+                                        ));
+                                    }
+                                } else if !arr.is_empty() && rt.outcome != "Ok" {
+                                    v.push(viol("C07", "refused-call-left-bytes", format!("{}: oneway() returned {} but a request reached the server", rt.token, rt.outcome)));
+                                }
                             }
                         }
                     }
@@ -976,6 +1063,8 @@ fn op_alphabet() -> Vec<KOp> {
         KOp::More { conts: 1, fin: RSpec::Ok, nexts: 3, nested: true },
         KOp::MoreErr { conts: 2, err_at: 0, fin: RSpec::Ok, nexts: 4 },
         KOp::MoreResend { conts: 2, fin: RSpec::Ok },
+        KOp::Unser { mode: 0 },
+        KOp::BusyRetryOneway { conts: 1, fin: RSpec::Ok },
     ]
 }
 
@@ -985,7 +1074,9 @@ fn random_op(rng: &mut Rng, specs: &[RSpec], allow_abandon: bool) -> KOp {
         3 => KOp::CallTyped(rng.pick(specs).clone()),
         4 => KOp::Oneway,
         5 => if rng.chance(1, 3) { KOp::OnewayResend } else { KOp::Oneway },
+        6 if rng.chance(1, 3) => KOp::Unser { mode: rng.below(3) as u8 },
         6 => KOp::Resend(rng.pick(specs).clone()),
+        7 if rng.chance(1, 4) => KOp::BusyRetryOneway { conts: rng.range(1, 4) as u8, fin: rng.pick(specs).clone() },
         7 if rng.chance(1, 2) => KOp::MoreResend { conts: rng.range(1, 5) as u8, fin: rng.pick(specs).clone() },
         7 => {
             let conts = rng.range(1, 6) as u8;
@@ -1294,6 +1385,34 @@ pub fn c04_spaces(tier: Tier) -> Vec<Space> {
                 let ops: Vec<KOp> = (0..len).map(|i| if idx >> i & 1 == 1 { KOp::Oneway } else { KOp::Call(RSpec::Ok) }).collect();
                 let mut c = base_case(vec![ops], SchedCfg::uniform(seed));
                 c.eager = 50;
+                Case::K(c)
+            }),
+        });
+    }
+    {
+        // a call object refused as busy, later issued with oneway(), then ordinary traffic
+        spaces.push(Space {
+            name: "K.oneway.refused-then-oneway",
+            size: 4 * 3 * 4,
+            exhaustive: true,
+            gen: Box::new(move |idx, seed| {
+                let conts = 1 + (idx % 4) as u8;
+                let fin = [RSpec::Ok, RSpec::Err { name: 4, params: 1 }, RSpec::OkBig][((idx / 4) % 3) as usize].clone();
+                let mut ops = vec![KOp::BusyRetryOneway { conts, fin }];
+                match idx / 12 {
+                    0 => ops.push(KOp::Call(RSpec::Ok)),
+                    1 => {
+                        ops.push(KOp::Oneway);
+                        ops.push(KOp::Call(RSpec::Ok));
+                    }
+                    2 => ops.push(KOp::More { conts: 2, fin: RSpec::Ok, nexts: 4, nested: false }),
+                    _ => {
+                        ops.insert(0, KOp::Oneway);
+                        ops.push(KOp::CallTyped(RSpec::Ok));
+                    }
+                }
+                let mut c = base_case(vec![ops], SchedCfg::uniform(seed));
+                c.eager = if idx % 2 == 0 { 0 } else { 50 };
                 Case::K(c)
             }),
         });
